@@ -160,6 +160,11 @@ def stepOne (st : St) : List String → St × List String
   | "product_wh" :: ts => match refs st ts with | some ts => st.request (.productWh ts) | none => bad st
   | "sum_seq" :: ts => match refs st ts with | some ts => st.request (.sumSeq ts) | none => bad st
   | "sum_wh" :: ts => match refs st ts with | some ts => st.request (.sumWh ts) | none => bad st
+  -- a product / sum over the live member sequence of a client's growing container `l` (the line repeats what it reads now);
+  -- `grow` adds a member to such a container: no table of the Lexicon is involved
+  | "product_live" :: l :: ts => match st.ref? l, refs st ts with | some _, some ts => st.request (.productSeq ts) | _, _ => bad st
+  | "sum_live" :: l :: ts => match st.ref? l, refs st ts with | some _, some ts => st.request (.sumSeq ts) | _, _ => bad st
+  | ["grow", l, n, t] => match refs st [l, n, t] with | some _ => (st, ["ok"]) | none => bad st
   | ["forall", s, t] => match refs st [s, t] with | some [s, t] => st.request (.forall_ s t) | _ => bad st
   | ["ptr_to_member", c, t] => match refs st [c, t] with | some [c, t] => st.request (.ptrToMember c t) | _ => bad st
   | ["tor", s, e] => match refs st [s, e] with | some [s, e] => st.request (.tor s e) | _ => bad st
